@@ -285,8 +285,57 @@ def _strictly_advances(e: Optional[ast.AST], vars_: Set[str], field: str, ctx: C
             dn = g.nodes[d]
             rhs = dn.ast.value if isinstance(dn.ast, (ast.Assign, ast.AnnAssign)) else None
             if not _strictly_advances(rhs, vars_, field, ctx, f, d, depth + 1):
-                ok = False
+                # `s = now(); if cur and s <= cur.f: s = cur.f + 1; stamp = s`: the clock value survives to the use only past the
+                # FALSE edge of `s <= cur.f` (so s > cur.f there); on the true side it is replaced by an advancing value
+                if not _guarded_by_step_branch(ctx, f, e.id, d, at, vars_, field):
+                    ok = False
         return ok
+    return False
+
+
+def _guarded_by_step_branch(ctx: Ctx, f: FunctionInfo, var: str, d: int, at: int, vars_: Set[str], field: str) -> bool:
+    g = ctx.cfg(f)
+    other_defs = [n.id for n in g.nodes if n.id != d and n.kind == "stmt" and isinstance(n.ast, (ast.Assign, ast.AugAssign))
+                  and any(isinstance(t, ast.Name) and t.id == var for t in (n.ast.targets if isinstance(n.ast, ast.Assign) else [n.ast.target]))]
+    for b in g.nodes:
+        if b.kind != "branch" or b.ast is None:
+            continue
+        cmp_ = b.ast
+        # the short-circuit `cur and s <= cur.f` arrives as two branches; the comparison is the one that matters
+        if not (isinstance(cmp_, ast.Compare) and len(cmp_.ops) == 1):
+            continue
+        l, r = cmp_.left, cmp_.comparators[0]
+        op = cmp_.ops[0]
+        is_fld = lambda x: isinstance(x, ast.Attribute) and x.attr == field and dotted(x.value) in vars_  # noqa: E731
+        strict_false = (isinstance(l, ast.Name) and l.id == var and is_fld(r) and isinstance(op, ast.LtE)) or \
+                       (isinstance(r, ast.Name) and r.id == var and is_fld(l) and isinstance(op, ast.GtE))
+        if not strict_false:
+            continue
+        # every path from the definition to the use passes this branch ...
+        def _absent_edge(s_: int, d_: int, l_: str) -> bool:
+            """the edge on which the validated version does not exist (`if current and ...` false side): nothing to advance past"""
+            n_ = g.nodes[s_]
+            if n_.kind != "branch" or n_.ast is None:
+                return False
+            a_ = n_.ast
+            if isinstance(a_, ast.Name) and a_.id in vars_:
+                return l_ == "false"
+            if isinstance(a_, ast.Compare) and len(a_.ops) == 1 and isinstance(a_.left, ast.Name) and a_.left.id in vars_ \
+                    and isinstance(a_.comparators[0], ast.Constant) and a_.comparators[0].value is None:
+                return l_ == ("true" if isinstance(a_.ops[0], ast.Is) else "false")
+            return False
+        if find_path(g, d, [at], avoid=[b.id], labels=NORMAL, edge_ok=lambda s_, d_, l_: not _absent_edge(s_, d_, l_)) is not None:
+            continue
+        # ... and on its true side the clock value does not survive to the use (an advancing value replaces it)
+        t = edge_target(g, b, "true")
+        if t is None:
+            continue
+        if t == at or find_path(g, t, [at], avoid=other_defs, labels=NORMAL) is not None:
+            continue
+        if not all(_strictly_advances(g.nodes[o].ast.value, vars_, field, ctx, f, o, 1) for o in other_defs
+                   if isinstance(g.nodes[o].ast, ast.Assign) and o in reachable_from(g, t, NORMAL) and find_path(g, o, [at], labels=NORMAL) is not None):
+            continue
+        return True
     return False
 
 
@@ -467,6 +516,14 @@ def r3(ctx: Ctx) -> None:
                     fresh = all(isinstance(g.nodes[d].ast, ast.Assign) and any(
                         c.stmt is g.nodes[d].ast and any(t.name == "refresh" for t in ctx.eff.callees(f, c)) for c in g.calls())
                         for d in defs)
+                    if ok and not fresh:
+                        # through aliases / a helper analysed in place (`def helper(update, base=None): if base is None: base =
+                        # refresh()`): every source of the value is a refresh() made inside the iteration
+                        from .common import resolve_value
+                        srcs_ = resolve_value(ctx, f, ast.Name(id=nm, ctx=ast.Load()), cp.id)
+                        fresh = bool(srcs_) and all(
+                            isinstance(x_, ast.Call) and (dotted(x_.func) or "").split(".")[-1] == "refresh"
+                            and any(fr.kind == "loop" and fr.node is loop_ast for fr in g.nodes[a_].frames) for x_, a_ in srcs_)
                     ctx.ob("C01.R3", f, "base metadata is a fresh refresh() of this iteration", cp, ok and fresh,
                            "the OCC base is re-read on every attempt", text=nm + "@" + (cp.callee.funcs[0].name if cp.callee and cp.callee.funcs else "?"))
     cf = ctx.fn("transaction.Transaction._commit_file_ops")
@@ -513,6 +570,9 @@ def r3(ctx: Ctx) -> None:
                f"{kw} is derived once per attempt from {need}", text=kw)
 
 
+from .common import judged_in_callers as judged_in_callers_, reachable_from  # noqa: E402
+
+
 def r3b(ctx: Ctx) -> None:
     ctx.rule("C01.R3b", "every retry loop around MetadataManager.commit rebuilds BOTH arguments inside the iteration (a retried commit "
              "never re-sends metadata derived from an earlier, stale base)", 1)
@@ -547,6 +607,35 @@ def r3b(ctx: Ctx) -> None:
                    "commit that landed in between" + (f"; {sorted(set(stale))}" if stale else ""))
     if n_sites < 3:
         raise AnalysisError(f"only {n_sites} MetadataManager.commit call sites found")
+    # ONE read decides: what a committing function changes is computed from the very metadata object it hands to commit() as the
+    # base - a second refresh() between the decision and the commit lets a foreign commit slip in between (the change is made for
+    # one table state and validated against another: `delete_snapshot(S2)` removes S3)
+    from .common import resolve_value
+    for f in sorted(ctx.prog.functions.values(), key=lambda x: x.qname):
+        if isinstance(f.node, ast.Lambda) or judged_in_callers_(ctx, f):
+            continue
+        g = ctx.cfg(f)
+        for n in g.calls():
+            if not any(t.qname == cq for t in ctx.eff.callees(f, n)) or not isinstance(n.ast, ast.Call) or not n.ast.args:
+                continue
+            base_reads = {id(x) for x, _a in resolve_value(ctx, f, n.ast.args[0], n.id)
+                          if isinstance(x, ast.Call) and (dotted(x.func) or "").split(".")[-1] == "refresh"}
+            if not base_reads:
+                continue  # the base is a parameter: judged where the function is called
+            loops = [fr.node for fr in n.frames if fr.kind == "loop"]
+            extra = []
+            for r in g.calls():
+                if not (isinstance(r.ast, ast.Call) and (dotted(r.ast.func) or "").split(".")[-1] == "refresh" and id(r.ast) not in base_reads):
+                    continue
+                if r.id not in g.reachable() or n.id not in reachable_from(g, r.id, NORMAL):
+                    continue
+                if loops and not any(fr.kind == "loop" and fr.node in loops for fr in r.frames):
+                    continue  # a read before the retry loop (never the base of an attempt)
+                extra.append(r)
+            ctx.ob("C01.R3b", f, "the committed base is the only metadata read of the attempt", n, not extra,
+                   "one refresh() decides what changes and is the base commit() validates" if not extra else
+                   f"a second metadata read (`{extra[0].text[:50]}`, line {extra[0].lineno}) lies on the way to this commit: the change is "
+                   "derived from one table state and validated against another")
 
 
 def r5(ctx: Ctx, rid: str = "C01.R5") -> None:
